@@ -121,7 +121,7 @@ def _aligned(p, res, rr, idx):
     r = frames_eq.frames_equal(res[hard], exp[hard], check_categories=bool(len(exp)), check_index=False)
     if r is None and pc:
         soft = [c for c in exp.columns if c in pc]
-        r = frames_eq.frames_equal(res[soft], exp[soft], check_dtype=False, check_categories=False, check_index=False)
+        r = frames_eq.frames_equal(res[soft], exp[soft], check_dtype=False, check_categories=False, loose_numbers=True, check_index=False)
     return r
 
 
